@@ -208,7 +208,7 @@ def run_engine(exe, db, histories, templates, timeout=420):
     timed_out = False
 
     def lim():       # a COPY loop that does not end must die (bad_alloc) instead of eating the machine
-        resource.setrlimit(resource.RLIMIT_AS, (3 << 30, 3 << 30))
+        resource.setrlimit(resource.RLIMIT_AS, (2 << 30, 2 << 30))
     try:
         r = subprocess.run([str(exe)], input="\n".join(lines) + "\n", text=True, capture_output=True, timeout=timeout,
                            preexec_fn=lim)
@@ -483,23 +483,8 @@ def judge_history(phases, h, eng_calls, mod_calls):
     j = Judge(phases, blocks_by_id(h))
     unj = None
     if len(eng_calls) != len(h) + 1:
-        # the engine process died. One cause is known and is not a store matter: SOLID_SOLUTIONS_MODIFY naming a solid
-        # solution inside an assemblage that SOLID_SOLUTIONS_MIX built from nothing creates a solid solution without
-        # parameters; the next calculation that uses it dereferences them (SIGSEGV). Recognised from the model's
-        # provenance of the modified entry; any other crash is a violation.
-        prov = {}
-        for m in mod_calls:
-            prov.update(m["T"])
-        for p in prov.values():
-            if p[:2] == ["mod", "ss"] and prov.get(int(p[2]), [""])[0] == "emix":
-                return ("finding", "crash-modify-of-empty-solid-solution",
-                        f"engine process died after call {len(eng_calls) - 1}: a solid solution added by "
-                        "SOLID_SOLUTIONS_MODIFY to an empty (mixed from nothing) assemblage is used in a calculation"), j.stats, None
-        for p in prov.values():
-            if p[0] == "emix" and p[1] == "gas" and all(c == "-" for c in p[3:]):
-                return ("finding", "crash-gas-phase-mixed-from-nothing",
-                        f"engine process died after call {len(eng_calls) - 1}: a gas phase that GAS_PHASE_MIX built from "
-                        "no existing gas phase (empty, no type/volume data) is used in a calculation"), j.stats, None
+        # the engine process died (the two causes found in round 1 — entities mixed from nothing — are repaired in
+        # e9270b5d / 03535ceb and replayed as fixed corpus histories by probe_crash_findings): always a violation
         return ("bad", f"engine produced {len(eng_calls)} call results for {len(h) + 1} calls (crash?)"), j.stats, None
     for ci, (e, m) in enumerate(zip(eng_calls, mod_calls)):
         r = j.call(ci, e, m)
@@ -748,21 +733,35 @@ def probe_reserved_numbers(ctx, exe, db):
 
 # ------------------------------------------------------------------------------------------------ main
 def check_chunk(ctx, exe, db, phases, templates, cfg, chunk):
-    eng, crashed, errtail = run_engine(exe, db, chunk, templates)
-    while crashed and errtail != "timeout" and 0 < len(eng) < len(chunk):
-        # the process died inside history len(eng)-1 (judged as such below); the rest of the chunk runs in a new process
-        more, crashed, errtail = run_engine(exe, db, chunk[len(eng):], templates)
-        eng += more
     mod = run_model(ctx, chunk, templates, cfg)
+    # a history in which, with the loop variable type read from copy_entities, a COPY loop does not end is reported from
+    # the model's prediction alone (probe_copy_findings shows it once on the engine under a memory limit); all other
+    # histories run on the engine — under an address-space and a time limit, so a loop the translator did not foresee
+    # ends as a dead process, i.e. as a violation too
+    runaway = {i: next(c["stop"] for c in m if c["stop"] and c["stop"][0] == "runaway")
+               for i, m in enumerate(mod) if any(c["stop"] and c["stop"][0] == "runaway" for c in m)}
+    idx = [i for i in range(len(chunk)) if i not in runaway]
+    sub = [chunk[i] for i in idx]
+    eng, crashed, errtail = run_engine(exe, db, sub, templates) if sub else ([], False, "")
+    while crashed and errtail != "timeout" and 0 < len(eng) < len(sub):
+        # the process died inside history len(eng)-1 (judged as such below); the rest of the chunk runs in a new process
+        more, crashed, errtail = run_engine(exe, db, sub[len(eng):], templates)
+        eng += more
+    pos = {i: k for k, i in enumerate(idx)}
     res = []
     for i, h in enumerate(chunk):
-        if i >= len(eng) or eng[i] is None:
+        if i in runaway:
+            res.append((("bad", f"COPY {' '.join(runaway[i][1:])}: with the loop variable type read from copy_entities the copy "
+                                "loop does not end (targets 0,1,2,... until memory is exhausted)"), {}, None))
+            continue
+        k = pos[i]
+        if k >= len(eng) or eng[k] is None:
             if errtail == "timeout":
                 res.append((None, {}, "calculation did not finish within the time limit"))
             else:
                 res.append((("bad", f"harness died ({errtail})"), {}, None))
             continue
-        res.append(judge_history(phases, h, eng[i], mod[i]))
+        res.append(judge_history(phases, h, eng[k], mod[i]))
     return res
 
 
@@ -996,6 +995,6 @@ MANIFEST = dict(
          "DELETE of the visible entries does not remove (DELETE -all does). Selective DUMP options are tied by theorem "
          "only (dump_options_wired); the observing dump is always -all. Fixed corpus histories replayed every run: the two "
          "COPY range shapes of the former size_t loop (7d4d2190) and the two crashes on entities mixed from nothing "
-         "(e9270b5d, 03535ceb); every harness process runs under a 3 GB address-space limit and a time limit, so a COPY "
+         "(e9270b5d, 03535ceb); every harness process runs under a 2 GB address-space limit and a time limit, so a COPY "
          "loop that does not end is reported, not avoided.",
 )
